@@ -7,11 +7,13 @@
  * Icinga; it generates/parses cases, runs the children (pool of 16) and prints the merged lines in case order.
  *
  * Lines (text after " | " is the implementation's observation; stripped on input):
- *   C <n> <tag>
+ *   C <n> <tag>                                         | boundH=<names> boundS=<names>   (inv child: the names
+ *                                                       FilterUtility::EvaluateFilter binds for a Host / Service target)
  *   K <NAME> <val>                                      const NAME = <val>
  *   U <name> <val>                                      var <name> = <val>   (top level; captured by rules with u=<name>)
- *   H <name> <os> <groups> <arr> <dict> <mix>           object Host
- *   S <host> <short> <os> <groups> <arr> <dict> <mix>   object Service
+ *   H <name> <os> <groups> <arr> <dict> <mix> [j=<pec>]           object Host
+ *   S <host> <short> <os> <groups> <arr> <dict> <mix> [j=<pec>]   object Service
+ *       j= joins: p check_period = "tp", e event_command = "ecmd", c command_endpoint = "ep" + zone = "z"
  *   O <i> <dsl text>                                    | h=<bits> s=<bits>        (inv child: truth of the atom per H / S line)
  *   R <id> <src> <tgt> <name> <for> <fk> <fv> <bodyhost> [a=<expr>]... [i=<expr>]... [u=<name>[,<name>...]]...
  *                                                       u= renders as `use (n1, n2)` in the apply header
@@ -354,8 +356,8 @@ static std::string Dsl(const P& e, const Atoms& atoms)
 
 /* ------------------------------------------------------------------------------------------ cases */
 
-struct HostL { std::string name, os, groups, arr, dict, mix; };
-struct SvcL { std::string host, name, os, groups, arr, dict, mix; };
+struct HostL { std::string name, os, groups, arr, dict, mix, joins; };
+struct SvcL { std::string host, name, os, groups, arr, dict, mix, joins; };
 struct RuleL {
 	std::string id, src, tgt, name, forSpec, fk, fv;
 	int bodyhost = 0;
@@ -406,6 +408,17 @@ static bool NormaliseLine(std::string s, std::string& out)
 	return true;
 }
 
+/* the optional trailing j=<letters> token of H and S lines */
+static std::string TakeJoins(std::vector<std::string>& w)
+{
+	if (w.empty() || w.back().compare(0, 2, "j=") != 0) return "";
+	std::string j = w.back().substr(2);
+	for (char ch : j)
+		if (ch != 'p' && ch != 'e' && ch != 'c') throw Bad("bad joins '" + j + "'");
+	w.pop_back();
+	return j;
+}
+
 static void ParseCaseLine(Case& c, const std::string& line)
 {
 	auto w = Words(line);
@@ -423,11 +436,13 @@ static void ParseCaseLine(Case& c, const std::string& line)
 		ValDsl(w[2]);
 		c.uvars.emplace_back(w[1], w[2]);
 	} else if (w[0] == "H") {
+		std::string j = TakeJoins(w);
 		if (w.size() != 7) throw Bad("bad H line");
-		c.hosts.push_back({ w[1], w[2], w[3], w[4], w[5], w[6] });
+		c.hosts.push_back({ w[1], w[2], w[3], w[4], w[5], w[6], j });
 	} else if (w[0] == "S") {
+		std::string j = TakeJoins(w);
 		if (w.size() != 8) throw Bad("bad S line");
-		c.svcs.push_back({ w[1], w[2], w[3], w[4], w[5], w[6], w[7] });
+		c.svcs.push_back({ w[1], w[2], w[3], w[4], w[5], w[6], w[7], j });
 	} else if (w[0] == "O") {
 		if (w.size() < 3 || w[1].find_first_not_of("0123456789") != std::string::npos) throw Bad("bad O line");
 		size_t p = line.find(w[1], 1) + w[1].size();
@@ -480,16 +495,23 @@ static std::string Preamble()
 	std::string t =
 		"object CheckCommand \"dummy\" { execute = function(checkable, cr, resolvedMacros, useResolvedMacros) { } }\n"
 		"object NotificationCommand \"ncmd\" { execute = function(notification, user, cr, itype, author, comment, resolvedMacros, useResolvedMacros) { } }\n"
-		"object User \"u\" { }\n";
+		"object User \"u\" { }\n"
+		"object TimePeriod \"tp\" { update = function(tp, begin, end) { return [] } }\n"
+		"object EventCommand \"ecmd\" { execute = function(checkable, resolvedMacros, useResolvedMacros) { } }\n"
+		"object Endpoint \"ep\" { }\n"
+		"object Zone \"z\" { endpoints = [ \"ep\" ] }\n";
 	for (const char *g : { "g1", "g2", "g3" }) t += std::string("object HostGroup \"") + g + "\" { }\n";
 	for (const char *g : { "sg1", "sg2" }) t += std::string("object ServiceGroup \"") + g + "\" { }\n";
 	return t;
 }
 
 static std::string VarsText(const std::string& os, const std::string& groups, const std::string& arr, const std::string& dict,
-	const std::string& mix)
+	const std::string& mix, const std::string& joins)
 {
 	std::string t;
+	if (joins.find('p') != std::string::npos) t += "  check_period = \"tp\"\n";
+	if (joins.find('e') != std::string::npos) t += "  event_command = \"ecmd\"\n";
+	if (joins.find('c') != std::string::npos) t += "  command_endpoint = \"ep\"\n  zone = \"z\"\n";
 	if (os != "-") t += "  vars.os = " + ValDsl(os) + "\n";
 	if (groups != "-") t += "  groups = " + NameListDsl(groups) + "\n";
 	if (arr != "-") t += "  vars.arr = " + ListDsl(arr) + "\n";
@@ -504,10 +526,10 @@ static std::string InventoryText(const Case& c)
 	for (auto& k : c.consts) t += "const " + k.first + " = " + ValDsl(k.second) + "\n";
 	for (auto& u : c.uvars) t += "var " + u.first + " = " + ValDsl(u.second) + "\n";
 	for (auto& h : c.hosts)
-		t += "object Host " + Quote(h.name) + " {\n  check_command = \"dummy\"\n" + VarsText(h.os, h.groups, h.arr, h.dict, h.mix) + "}\n";
+		t += "object Host " + Quote(h.name) + " {\n  check_command = \"dummy\"\n" + VarsText(h.os, h.groups, h.arr, h.dict, h.mix, h.joins) + "}\n";
 	for (auto& s : c.svcs)
 		t += "object Service " + Quote(s.name) + " {\n  host_name = " + Quote(s.host) + "\n  check_command = \"dummy\"\n"
-			+ VarsText(s.os, s.groups, s.arr, s.dict, s.mix) + "}\n";
+			+ VarsText(s.os, s.groups, s.arr, s.dict, s.mix, s.joins) + "}\n";
 	return t;
 }
 
@@ -743,6 +765,22 @@ static std::string RunQuery(const char *type, const std::string& filter, const D
 	}
 }
 
+/* The names FilterUtility::EvaluateFilter binds in the frame for a target of this type (same loop, by reflection). */
+static std::string BoundNames(const char *typeName)
+{
+	Type::Ptr type = Type::GetByName(typeName);
+	if (!type) return "?";
+	std::set<std::string> names;
+	names.insert("obj");
+	names.insert(type->GetName().ToLower().GetData());
+	for (int fid = 0; fid < type->GetFieldCount(); fid++) {
+		Field field = type->GetFieldInfo(fid);
+		if ((field.Attributes & FANavigation) == 0) continue;
+		names.insert(field.NavigationName ? field.NavigationName : field.Name);
+	}
+	return Join(std::vector<std::string>(names.begin(), names.end()), ",");
+}
+
 static int ChildMain(const std::string& variant, int conc)
 {
 	alarm(60);
@@ -756,6 +794,13 @@ static int ChildMain(const std::string& variant, int conc)
 	}
 	static char outbuf[1 << 16];
 	setvbuf(stdout, outbuf, _IOFBF, sizeof outbuf);
+
+	if (variant == "bound") {
+		InitIcinga();
+		printf("C boundH=%s boundS=%s\nEND\n", BoundNames("Host").c_str(), BoundNames("Service").c_str());
+		fflush(stdout);
+		_exit(0);
+	}
 
 	Case c;
 	std::string text;
@@ -804,6 +849,8 @@ static int ChildMain(const std::string& variant, int conc)
 	if (variant != "inv") {
 		printf("R %s\n", ok ? ObserveObjects(c).c_str() : "rejected");
 	} else {
+		if (ok) printf("C boundH=%s boundS=%s\n", BoundNames("Host").c_str(), BoundNames("Service").c_str());
+		else printf("C boundH=? boundS=?\n");
 		std::vector<Host::Ptr> hosts;
 		std::vector<Service::Ptr> svcs;
 		if (ok) {
@@ -957,11 +1004,12 @@ static int PrintCase(const CaseRun& cr, const std::vector<Job>& jobs)
 		if (j.variant == "inv") inv = &j;
 		else byKey[(j.variant == "plain" ? "p" : "w") + std::to_string(j.conc)] = &j;
 	}
-	std::vector<std::string> oobs, aobs;
+	std::vector<std::string> oobs, aobs, cobs;
 	if (inv) {
 		oobs = OutLines(*inv, 'O');
 		aobs = OutLines(*inv, 'A');
-		if (oobs.size() != c.olines.size() || aobs.size() != c.alines.size()) {
+		cobs = OutLines(*inv, 'C');
+		if (oobs.size() != c.olines.size() || aobs.size() != c.alines.size() || cobs.size() != 1) {
 			printf("FATAL %s: inv child printed %zu/%zu O and %zu/%zu A lines\n", tag.c_str(), oobs.size(), c.olines.size(),
 				aobs.size(), c.alines.size());
 			return 3;
@@ -983,6 +1031,10 @@ static int PrintCase(const CaseRun& cr, const std::vector<Job>& jobs)
 	size_t oi = 0, ai = 0;
 	for (size_t i = 0; i < c.lines.size(); i++) {
 		switch (c.kinds[i]) {
+		case 'C':
+			if (cobs.size() == 1) printf("%s | %s\n", c.lines[i].c_str(), cobs[0].c_str());
+			else printf("%s\n", c.lines[i].c_str());
+			break;
 		case 'O': printf("%s | %s\n", c.lines[i].c_str(), oobs[oi++].c_str()); break;
 		case 'A': printf("%s | %s\n", c.lines[i].c_str(), aobs[ai++].c_str()); break;
 		case 'L': printf("%s | %s\n", c.lines[i].c_str(), lobs.c_str()); break;
@@ -1042,7 +1094,7 @@ static int RunAll(const std::vector<std::string>& lines)
 			cr.jobs.push_back(jobs.size());
 			jobs.push_back(std::move(j));
 		};
-		if (!cr.c.olines.empty() || !cr.c.alines.empty()) add("inv", 1);
+		add("inv", 1);
 		for (int conc : cr.c.concs) {
 			add("plain", conc);
 			add("wrap", conc);
@@ -1119,6 +1171,7 @@ struct Gen {
 	std::set<std::string> uvars;              /* U variables of the case (ux, us, un, host) */
 	std::vector<std::string> created;         /* short names of services the case's S->H rules can create (cascade cases) */
 	bool useCreated = false;                  /* the rule being generated is a ->S rule of a cascade case */
+	std::vector<std::string> boundH, boundS;  /* names EvaluateFilter binds for a Host / Service target (from `child bound`) */
 
 	explicit Gen(Rng& rng) : r(rng) { }
 
@@ -1352,6 +1405,16 @@ struct Gen {
 		if (m < 2) t += " -";
 		else if (m < 4) t += " a:" + DistinctVals((int)r.below(4));
 		else t += " d:" + DictVals((int)r.below(4));
+		/* joins: the navigation fields EvaluateFilter binds are non-null on ~35 % of the objects */
+		if (pct(35)) {
+			std::string j;
+			int k = (int)r.below(20);
+			if (k == 0) j = r.coin() ? "c" : (r.coin() ? "pc" : "pec");
+			else if (k < 8) j = "p";
+			else if (k < 15) j = "e";
+			else j = "pe";
+			t += " j=" + j;
+		}
 		return t;
 	}
 
@@ -1534,22 +1597,40 @@ struct Gen {
 				}
 				fv = kvs.empty() ? "e" : Join(kvs, ",");
 			}
-		} else if (kind < 59) {
-			/* a filter variable that shares its name with what EvaluateFilter puts into the frame */
-			static const char *names[] = { "host", "service", "obj" };
-			std::string v = names[r.below(3)];
+		} else if (kind < 64) {
+			/* a filter_vars key that shares its name with what EvaluateFilter binds for the target (obj, host, service,
+			 * navigation fields), referenced from the filter as a constant in a fast-path shape */
+			const std::vector<std::string>& bound = tgt == 'H' ? boundH : boundS;
+			std::string v = bound[r.below(bound.size())];
+			auto cmpVar = [&](const char *var) {
+				P ix = Bin('.', Var(var), Str("name"));
+				return r.coin() ? Bin('=', ix, Var(v)) : Bin('=', Var(v), ix);
+			};
 			if (tgt == 'H') {
-				std::string hn = PickHost();
-				e = r.coin() ? Bin('=', Bin('.', Var("host"), Str("name")), Var(v)) : Bin('=', Var(v), Bin('.', Var("host"), Str("name")));
-				fv = v + "='" + hn;
-				if (r.below(3) == 0) e = Bin('|', e, NameCmp("host", PickHost()));
+				e = cmpVar("host");
+				fv = v + "='" + PickHost();
 			} else {
 				auto hs = PickSvc();
 				bool onHost = r.coin();
-				P a = onHost ? Bin('=', Bin('.', Var("host"), Str("name")), Var(v)) : NameCmp("host", hs.first);
-				P b = onHost ? NameCmp("service", hs.second) : Bin('=', Bin('.', Var("service"), Str("name")), Var(v));
+				P a = onHost ? cmpVar("host") : NameCmp("host", hs.first);
+				P b = onHost ? NameCmp("service", hs.second) : cmpVar("service");
 				e = r.coin() ? Bin('&', a, b) : Bin('&', b, a);
 				fv = v + "='" + (onHost ? hs.first : hs.second);
+			}
+			if (r.below(3) == 0) e = r.coin() ? Bin('|', e, Disjunct(tgt)) : Bin('|', Disjunct(tgt), e);
+		} else if (kind < 66) {
+			/* ... or present in filter_vars without being referenced */
+			const std::vector<std::string>& bound = tgt == 'H' ? boundH : boundS;
+			std::string v = bound[r.below(bound.size())];
+			e = Fold(Disjuncts(tgt));
+			fv = v + "='" + (r.coin() ? PickHost() : PickSvc().second);
+			if (r.below(3) == 0) {
+				auto lits = Nodes(e, [](const P& x) { return x->k == 'S' && x->s != "name"; });
+				if (!lits.empty()) {
+					P n = lits[r.below(lits.size())];
+					fv += ",c0='" + n->s;
+					n->k = 'V'; n->s = "c0";
+				}
 			}
 		} else {
 			e = RandEx(3, tgt, false);
@@ -1685,6 +1766,19 @@ int main(int argc, char **argv)
 		Rng seeder(seed);
 		Rng rng(seeder.next() ^ 0xC16);
 		Gen g(rng);
+		{
+			/* the names EvaluateFilter binds, by type reflection in a child (this process never initialises Icinga) */
+			Job b;
+			b.variant = "bound";
+			RunChild("", b);
+			auto c = OutLines(b, 'C');
+			if (!b.ok || c.size() != 1) { printf("FATAL child bound: %s\n", b.why.c_str()); fflush(stdout); _exit(3); }
+			for (auto& w : Words(c[0])) {
+				if (w.compare(0, 7, "boundH=") == 0) g.boundH = Split(w.substr(7), ',');
+				if (w.compare(0, 7, "boundS=") == 0) g.boundS = Split(w.substr(7), ',');
+			}
+			if (g.boundH.size() < 2 || g.boundS.size() < 2) { printf("FATAL child bound: no names\n"); fflush(stdout); _exit(3); }
+		}
 		int n = atoi(argOr(argc, argv, "--cases", thorough ? "25000" : "4000"));
 		for (int i = 0; i < n; i++) g.GenCase(i, thorough || i % 3 == 0, lines);
 		if (hasFlag(argc, argv, "--print-only")) {
